@@ -292,11 +292,19 @@ class FSModel:
     faults = True          # every effectful / reading external may fail with OSError(e), e != ENOENT, without effect
     fault_reads = False
 
-    def fs_init(self, ex, tag="0"):
+    def fs_init(self, ex, tag="0", keys=None):
+        """keys: list of (p, i) pairs.  When given, the well-formedness hypotheses are instantiated at exactly these job directories
+        (they are local -- each instance constrains only its own directory -- so this loses nothing and keeps the path condition
+        quantifier-free, which lets the solver also REFUTE); otherwise they are stated with quantifiers."""
         self.fs0 = FS.fresh(tag)
         self.fs = self.fs0
-        for a in self.fs0.wf() + theory_axioms():
-            ex.assume(a)
+        if keys is None:
+            for a in self.fs0.wf() + theory_axioms():
+                ex.assume(a)
+        else:
+            for (p_, i_) in keys:
+                k = JD.mk(p_, i_)
+                ex.assume(z3.And(z3.Implies(z3.Not(self.fs0.dirs[k]), self.fs0.ent[k] == EMPTY), z3.Implies(self.fs0.dirs[k], self.fs0.ws[p_])))
         import os
         import shutil
         self.externals.update({
@@ -306,7 +314,37 @@ class FSModel:
         })
         self.assume_tag = "FS externals: POSIX contracts of os.replace/remove/makedirs/listdir/isfile/isdir, shutil.rmtree/copytree (multi-step, may stop after any part)"
 
+    rg = False
+
+    def interfere(self, interp):
+        """rely/guarantee mode: between any two of my file-system steps the OTHER actors (Project(), open_job(sp).init(), document
+        writes of other jobs, listings) may have run.  The rely is stated per directory and instantiated at the (project, id) pairs this
+        path mentions -- a weaker hypothesis than the quantified form, hence sound for proving."""
+        if not self.rg:
+            return
+        ex = interp.ex
+        F = self.fs
+        G = FS.fresh(ex.fresh_name("rely"))
+        for (p, i, sp) in self.ghost.get("rg_ids", []):
+            k = JD.mk(p, i)
+            n0, n1 = F.ent[k][Name.SP], G.ent[k][Name.SP]
+            ex.assume(z3.And(
+                z3.Implies(F.ws[p], G.ws[p]), z3.Implies(F.dirs[k], G.dirs[k]), z3.Implies(G.dirs[k], G.ws[p]),
+                z3.Implies(Node.is_File(n0), Node.is_File(n1)),
+                z3.Or(n1 == n0, z3.And(Node.is_File(n1), jsonok(Node.data(n1)), CALC(parsed(Node.data(n1))) == i)),   # others only ever write a VALID state point
+                z3.Implies(n1 != Node.Absent, G.dirs[k]),
+                G.ent[k] == z3.Store(F.ent[k], Name.SP, n1)))
+        for p in self.ghost.get("rg_projects", []):
+            ex.assume(z3.And(z3.Implies(F.ws[p], G.ws[p]), G.pf == F.pf))
+        ex.assumptions_used.add("rely: other actors only create the workspace / job directories, write state point files atomically and only with a valid content for that id, "
+                                "never remove anything (actors limited to the property's script set); each file-system call is atomic")
+        self.fs = G
+
     def effect(self, interp, label, fs):
+        if self.rg:
+            hook_g = getattr(self.contract, "guarantee", None)
+            if hook_g is not None:
+                hook_g(interp, self, label, self.fs, fs)
         self.fs = fs
         interp.ex.effect(label, fs)
         interp.ex.assumptions_used.add(self.assume_tag)
@@ -342,6 +380,7 @@ class FSModel:
         raise Unsupported(f"presence of {loc!r}")
 
     def x_isfile(self, interp, loc):
+        self.interfere(interp)
         fs = self.fs
         if isinstance(loc, LIn):
             return SBool(z3.And(fs.dirs[JD.mk(loc.p, loc.i)], Node.is_File(fs.node(loc))))
@@ -352,6 +391,7 @@ class FSModel:
         raise Unsupported(f"isfile({loc!r})")
 
     def x_isdir(self, interp, loc):
+        self.interfere(interp)
         fs = self.fs
         if isinstance(loc, LIn):
             return SBool(z3.And(fs.dirs[JD.mk(loc.p, loc.i)], Node.is_Sub(fs.node(loc))))
@@ -362,6 +402,7 @@ class FSModel:
         raise Unsupported(f"isdir({loc!r})")
 
     def x_exists(self, interp, loc):
+        self.interfere(interp)
         return SBool(self.present(loc))
 
     def x_join(self, interp, *parts):
@@ -372,6 +413,7 @@ class FSModel:
 
     # ---- effects
     def x_makedirs(self, interp, loc, mode=0o777, exist_ok=False):
+        self.interfere(interp)
         ex, fs = interp.ex, self.fs
         if ex.decide(self.present(loc), "makedirs:exists"):
             if not exist_ok:
@@ -388,6 +430,7 @@ class FSModel:
         return None
 
     def x_mkdir(self, interp, loc, mode=0o777):
+        self.interfere(interp)
         ex, fs = interp.ex, self.fs
         if ex.decide(self.present(loc), "mkdir:exists"):
             raise RaiseSignal(SymOSError(_errno.EEXIST))
